@@ -46,6 +46,18 @@ Del(x) == /\ phase = "iter" /\ muts < MaxMut /\ x \in live /\ live' = live \ {x}
 Next == Start \/ Call \/ (\E x \in Universe : Add(x) \/ Del(x))
 Spec == Init /\ [][Next]_vars /\ WF_vars(Call)
 
+(* the same step stated with sets (ImplScanInd.tla, whose inductive invariant Apalache discharges): both formulations agree *)
+CandS == {x \in live : x >= cursor}
+GotS == {x \in CandS : Cardinality({y \in CandS : y < x}) < Count}
+RestS == CandS \ GotS
+CallAgrees == (HashCursor /\ phase = "iter") =>
+  LET s == Sorted(live)
+      start == Cardinality({x \in live : x < cursor})
+      stop == IF start + Count < Len(s) THEN start + Count ELSE Len(s)
+      got == {s[i] : i \in (start + 1)..stop}
+      next == IF stop >= Len(s) THEN 0 ELSE s[stop + 1]
+  IN got = GotS /\ next = (IF RestS = {} THEN 0 ELSE CHOOSE m \in RestS : \A y \in RestS : m <= y)
+
 Guarantee == phase = "done" => (stable \subseteq ret /\ ret \subseteq ever)
 Terminates == calls <= Cardinality(Universe) + MaxMut + 1
 =============================================================================
